@@ -927,7 +927,7 @@ PROPS = {
     "C18": {
         "property_modules": ["Zlink.Properties.C18"], "lean_modules": ["Zlink.Properties.C18"],
         "theorems": ["C18.C18_select_min", "C18.C18_scan_is_select", "C18.C18_server_rotation", "C18.C18_no_double_service", "C18.C18_phase_bound", "C18.C18_bounded_bypass",
-                     "C18.C18_run_is_winners", "C18.C18_server_no_double_service", "C18.C18_server_phase_bound", "C18.C18_positions_are_connections"],
+                     "C18.C18_run_is_winners", "C18.C18_server_no_double_service", "C18.C18_server_phase_bound", "C18.C18_positions_are_connections", "C18.C18_waiting_call_not_overtaken"],
         "run": run_srv_scenarios(["srv-fair"]), "trusted_base": TB_COMMON,
         "assumptions": SRV_ASSUME + [
             "the no-double-service and phase-bound theorems are proved both over abstract sequences of consecutive scans (Sel.winners) and over whole stretches of the server loop (C18_server_no_double_service / C18_server_phase_bound via C18_run_is_winners: the successive lastCall values of consecutive iterations over a connection list of unchanged length are the winners sequence; C18_positions_are_connections: then the same clients sit at the same positions); the second sentence (across closures and stream transitions) is the sum over phases (C18_bounded_bypass), its phases being such stretches",
@@ -985,7 +985,7 @@ PROPS = {
         "theorems": ["C13.C13_total", "C13.C13_type_names_exact", "C13.C13_field_names_exact", "C13.C13_interface_names_complete",
                      "C13.C13_types_complete", "C13.C13_complete", "C13.C13_types_layout", "C13.C13_layout",
                      "C13.C13_interface_names_sound", "C13.C13_sound_tree", "C13.C13_sound_text",
-                     "C13.C13_type_members_homogeneous", "C13.C13_grammars_consistent", "C13.C13_literals"],
+                     "C13.C13_type_members_homogeneous", "C13.C13_grammars_consistent", "C13.C13_literals", "C13.C13_no_empty_enum"],
         "run": run_idl, "trusted_base": TB_COMMON,
         "assumptions": [
             "winnow's alt / separated / literal / take_while / multispace0 and str::trim behave as ported in Zlink/Model/Idl.lean (validated by the correspondence run: identical trees / rejections on every explored text)",
